@@ -508,6 +508,55 @@ def py_spec(case, obs):
     return None
 
 
+def _leaf_durs(t):
+    if not t['c']:
+        return [] if t['w'] is None else [_desc_dur(t['w'])]
+    return [d for c in t['c'] for d in _leaf_durs(c)]
+
+
+def _desc_dur(w):
+    k = w[0]
+    if k == 'A':
+        return F(w[2])
+    if k == 'C':
+        return F(w[1])
+    if k == 'S':
+        return sum((_desc_dur(x) for x in w[1]), F(0))
+    return _desc_dur(w[1]) * w[2]
+
+
+def _desc_total(t):
+    if not t['c']:
+        return (F(0) if t['w'] is None else _desc_dur(t['w'])) * max(t['r'], 0)
+    return sum((_desc_total(c) for c in t['c']), F(0)) * max(t['r'], 0)
+
+
+def py_post(obs):
+    """postconditions and duration read off the implementation's observation in plain Python (used by the failing-input
+    search when the Coq side cannot be consulted)"""
+    path, op = obs['last']
+    if _desc_total(obs['after']) != _desc_total(obs['input']) or F(obs['dur']) != _desc_total(obs['input']):
+        return 'duration changed: %s -> %s (reported %s)' % (_desc_total(obs['input']), _desc_total(obs['after']), obs['dur'])
+    if 'err' in obs:
+        return None
+    try:
+        node = _node_at(obs['after'], path)
+    except (IndexError, KeyError):
+        return None
+    if op[0] == 'flatten' and op[1] >= 1 and node['c']:
+        if obs['depth'] != op[1] or _depth(node) != op[1]:
+            return 'depth after flatten_and_balance(%d) is %s' % (op[1], obs['depth'])
+        if not obs['bal']:
+            return 'program is not balanced after flatten_and_balance'
+    if op[0] == 'make_compat' and op[2] > 0:
+        sr = F(op[3])
+        for d in _leaf_durs(node):
+            n = d * sr
+            if n.denominator != 1 or n < op[1] or n % op[2] != 0:
+                return 'leaf of %s samples after make_compatible(min=%d, quantum=%d)' % (n, op[1], op[2])
+    return None
+
+
 def _size(t):
     return 1 + sum(_size(c) for c in t['c'])
 
@@ -1054,12 +1103,8 @@ def search_failing(ctx, broken):
     for case in gen_cases(rng, 'quick', ctx):
         obs = run_impl(case)
         why = py_spec(case, obs)
-        if why is None and case['kind'] == 'rw' and 'after' in obs and 'err' not in obs:
-            op = case['op']
-            if op[0] == 'flatten' and op[1] >= 1 and obs['depth'] not in (0, op[1]):
-                why = 'depth after flatten_and_balance(%d) is %s' % (op[1], obs['depth'])
-            elif op[0] == 'flatten' and op[1] >= 1 and not obs['bal']:
-                why = 'program is not balanced after flatten_and_balance'
+        if why is None and case['kind'] == 'rw' and 'after' in obs:
+            why = py_post(obs)
         if why is not None and classify(case, obs) is None:
             return case, obs, why
     return None
